@@ -19,7 +19,7 @@ LEVEL_TEXTS = {
     "C05": GENERIC + "Differential py == c over every quoter/unquoter instance of the library, exhaustive buffer-boundary set, ASan+UBSan image of the compiled quoter, URL-level OBSERVE differential, and a coverage-guided atheris campaign with the oracle inside the target.",
     "C06": GENERIC + "Independent reference unquoter (UTF-8 scalar by scalar, verbatim fallback) against every decoded accessor; read-back identity for every quoting row of the registry.",
     "C07": GENERIC + "Independent RFC 3986 Appendix B splitter + authority splitter as reference; re-composition with the licensed variations; atheris campaign on the splitter.",
-    "C08": "Stateful model-based testing: a Hypothesis rule-based state machine drives a cold and a warm copy of the package in lock-step; invariants (snapshot immutability, outcome equality) are checked after every step; whole sequences shrink and replay as data. Evidence over the explored histories only.",
+    "C08": "Stateful model-based testing: a Hypothesis rule-based state machine drives a warm copy of the package (long history, reused operands, reconfigured caches) and re-executes every step in a freshly forked pristine process on cache-free operands (history-free by construction); invariants (snapshot immutability of every live URL and of caller-owned arguments, outcome equality pristine vs warm) are checked after every step; whole sequences shrink and replay as data. Evidence over the explored histories only.",
     "C09": GENERIC + "OBSERVE(u) == OBSERVE(twin) for pickle protocols 0-5/copy/deepcopy; the degenerate-authority grid is enumerated completely.",
     "C10": GENERIC + "Five-tuple model key and equivalence/total-preorder axioms over near-colliding triples built by several construction routes.",
     "C11": GENERIC + "Field-wise frame condition; the base matrix (20160 bases) x modifier/argument table is enumerated completely in both tiers.",
